@@ -231,8 +231,8 @@ type ppFail struct {
 	Spine   string   `json:"spine"`
 	Forms   []string `json:"forms"`
 	Culprit string   `json:"culprit,omitempty"` // minimised failing term: the forms needed for the failure
-	Diff    string   `json:"diff,omitempty"`  // semantic class of the difference
-	Where   string   `json:"where,omitempty"` // AST path without indices
+	Diff    string   `json:"diff,omitempty"`    // semantic class of the difference
+	Where   string   `json:"where,omitempty"`   // AST path without indices
 	Detail  string   `json:"detail,omitempty"`
 	Src     string   `json:"src"`
 	Printed string   `json:"printed,omitempty"`
